@@ -8,6 +8,7 @@ import (
 	"fmt"
 	"hash/fnv"
 	"sort"
+	"sync/atomic"
 	"time"
 )
 
@@ -54,6 +55,7 @@ type Rec struct {
 	Samples       []json.RawMessage
 	ReplayChoices []int // non-nil: replay exactly this execution
 	Replay        bool
+	Heartbeat     int64 // unix nanos of a recent execution (atomic)
 	DeadlineUnix  int64 // wall-clock deadline of the tier (internal: capped runs are reported, never alarms)
 
 	curNonTrivial bool
@@ -82,8 +84,14 @@ func (r *Rec) EndCase() {
 	r.curStates = nil
 }
 
-// Execution counts one run of real code.
-func (r *Rec) Execution() { r.Evaluations++ }
+// Execution counts one run of real code. It is also the heartbeat of the worker's watchdog: a
+// case may legitimately take long (many executions), a single execution may not.
+func (r *Rec) Execution() {
+	r.Evaluations++
+	if r.Evaluations&15 == 0 {
+		atomic.StoreInt64(&r.Heartbeat, time.Now().UnixNano())
+	}
+}
 
 // NonTrivial marks the current case as non-trivial by the scenario's rule.
 func (r *Rec) NonTrivial() { r.curNonTrivial = true }
